@@ -12,6 +12,8 @@
                     | "late:<name>" (c.QueryParam read AFTER a nested block that answers early: every later read still is an input)
      form     [values : Seq(name), file : name or "", json : name or "", jsonkind : "" | "struct" | "string"]
      ret      "none" | "json" | "jsonlit" | "pretty" | "blob"
+     where    "stmt" | "closure" | "block": where the registration call stands in routes() (a statement, inside a function
+              literal handed to a method call, inside an if block); it changes nothing to what is expected
    Types are written as Go type strings with PKG standing for the package of the route file.      *)
 EXTENDS Naturals, Sequences, FiniteSets, TLC
 
